@@ -662,6 +662,13 @@ def _double_minus(prog, rep, cfg):
                               f"{f.path} builds `unop operand` through {sorted(helpers)}, which does not re-wrap an operand "
                               f"that starts with `-` when the operator is `-` ({why}): `- (-x)` is printed as `--x`", f.loc(), cfg)
             continue
+        # a boolean helper over the operand (`starts_with_unary_minus(&expression)`, possibly using a local closure) is
+        # analysed in place
+        from inline import inlined
+        f = inlined(prog, f, lambda caller, h, t: h.locals[0] == "bool" and len(h.blocks) <= 40 and
+                    (h.kind == "Closure" or any(x in (EXPR, "&" + EXPR) for x in h.locals[1:h.argc + 1])) and
+                    not h.path.startswith("formatters::trivia_util::") and "contains_comments" not in h.path,
+                    depth=2, allow_closures=True)
         try:
             res = Enumerator(f, {f"arg:{ei[0]}": "UnaryOperator"}).run()
         except TooManyPaths:
